@@ -738,6 +738,19 @@ def rule_swallowed_raise(ctx: Ctx, prog: Program) -> None:
             d = n.right if isinstance(n, ast.BinOp) else n.value
             while isinstance(d, ast.UnaryOp) and isinstance(d.op, (ast.USub, ast.UAdd)):
                 d = d.operand
+            for _ in range(3):  # a local that is a (negated) copy of another name is zero exactly when that name is:  nc = -c
+                if not isinstance(d, ast.Name):
+                    break
+                defs = [a_ for a_ in ast.walk(f.node) if isinstance(a_, ast.Assign) and len(a_.targets) == 1 and isinstance(a_.targets[0], ast.Name) and a_.targets[0].id == d.id]
+                others = [a_ for a_ in ast.walk(f.node) if isinstance(a_, (ast.AugAssign, ast.For, ast.NamedExpr)) and any(isinstance(x_, ast.Name) and x_.id == d.id and isinstance(x_.ctx, ast.Store) for x_ in ast.walk(a_.target))]
+                if len(defs) != 1 or others or d.id in f.params:
+                    break
+                src_ = defs[0].value
+                while isinstance(src_, ast.UnaryOp) and isinstance(src_.op, (ast.USub, ast.UAdd)):
+                    src_ = src_.operand
+                if not isinstance(src_, ast.Name):
+                    break
+                d = src_
             cv = prog.fold(f.module, d) if isinstance(d, (ast.Constant, ast.Name)) else NO
             if cv is not NO and isinstance(cv, (int, float)) and cv != 0:
                 continue  # a non-zero constant
